@@ -415,7 +415,23 @@ class StmtMixin:
                         raise VCError('subscript store on %r' % (c,))
                     if c.t.kind == 'list':
                         i = self.l_index(c, k, s2, frame, node)
-                        ElemLoc(c.loc, c.t, i).write(s2, self.term(v, s2, c.t.args[0]))
+                        old_arr = self.l_arr(c, s2)
+                        vt_ = self.term(v, s2, c.t.args[0])
+                        if c.t.args[0].kind != 'bytes':
+                            ElemLoc(c.loc, c.t, i).write(s2, vt_)
+                        else:
+                            from .execcont import bsum_fn
+                            from .types import blen as _blen
+                            new_arr = fresh('set', old_arr.sort())
+                            iv = fresh('idx', z3.IntSort())
+                            s2.assume(iv == i)
+                            i = iv
+                            s2.assume(new_arr == z3.Store(old_arr, i, vt_))
+                            self.write_cont(c, s2, c.t.mk(self.l_len(c, s2), new_arr), node)
+                            kk = z3.Int('k!be')
+                            s2.assume(z3.ForAll([kk], bsum_fn(new_arr, kk) == z3.If(kk <= i, bsum_fn(old_arr, kk),
+                                      bsum_fn(old_arr, kk) - _blen(z3.Select(old_arr, i)) + _blen(vt_)),
+                                      patterns=[bsum_fn(new_arr, kk)]))
                     else:
                         self.d_store(c, k, v, s2, node)
                     out.append(s2)
